@@ -264,9 +264,19 @@ def run_check(pid, tier, seed, replay=None):
     random.seed(seed)
     import translate
     problems = []      # broken obligations (translation / build / audit)
+    foreign_notes = [] # translation problems at code sites no theorem of this property depends on
     try:
         tr = translate.translate()
-        problems += ['translation: ' + p for p in tr['problems']]
+        # a code site that left the translated subset concerns the properties whose companion theorems / differential
+        # tests use that site (their Lean modules stop building as well); for every other property it is a note
+        import gencheck
+        mine = set(gencheck.GROUPS.get(pid, []))
+        for p in tr['problems']:
+            m = re.match(r'py2lean (\w+):', p)
+            if m and m.group(1) not in mine:
+                foreign_notes.append(p)
+            else:
+                problems.append('translation: ' + p)
     except Exception as e:  # noqa
         problems.append('translation failed: %s' % e)
         tr = {'changed': []}
@@ -364,7 +374,7 @@ def run_check(pid, tier, seed, replay=None):
             exhaustive=False,
             input_distribution=res.distribution,
             broken_obligations=problems,
-            notes=res.notes,
+            notes=res.notes + ['translation note (site not used by this property): ' + n for n in foreign_notes],
         ),
         assumptions=getattr(prop, 'ASSUMPTIONS', []),
         wall_s=round(wall, 2),
